@@ -2694,6 +2694,22 @@ func (s *Store) fsmSnapshot() (fSnap raft.FSMSnapshot, retErr error) {
 			return nil, fmt.Errorf("checkpoint did not succeed during full snapshot")
 		}
 		vhook.Point("fsmsnapshot.full.after_checkpoint")
+
+		// A full snapshot captures the entire database, so any WAL files still staged
+		// from earlier snapshot attempts which never reached the Snapshot store are now
+		// redundant. Worse, they predate this copy of the database: if they were left
+		// in place the next incremental snapshot would package them after this full
+		// snapshot, and a restore would replay their stale pages on top of it. Until
+		// this full snapshot is safely in the store, make sure nothing less than a
+		// full snapshot can follow.
+		if staged, err := snapshot.NewStagingDir(s.walStagingDir).WALFiles(); err == nil && len(staged) > 0 {
+			if err := s.snapshotStore.SetDueNext(snapshot.Full); err != nil {
+				return nil, fmt.Errorf("failed to set full snapshot needed: %w", err)
+			}
+			if err := os.RemoveAll(s.walStagingDir); err != nil {
+				return nil, fmt.Errorf("failed to remove stale staged WAL files: %w", err)
+			}
+		}
 		streamer, err := snapshot.NewSnapshotStreamer(s.db.Path())
 		if err != nil {
 			return nil, err
